@@ -109,8 +109,8 @@ impl Property for C01 {
         tier.pick(10_000, 200_000)
     }
     fn strategy(_tier: Tier) -> BoxedStrategy<Spec> {
-        let cfg_cheap = Cfg::basic();
-        let cfg_mixed = Cfg { cheap: false, max_steps: 2, ..Cfg::basic() };
+        let cfg_cheap = Cfg { rules: RuleMode::PermissiveWithMatch, ..Cfg::basic() };
+        let cfg_mixed = Cfg { cheap: false, max_steps: 2, rules: RuleMode::PermissiveWithMatch, ..Cfg::basic() };
         (
             prop_oneof![4 => valid_world(cfg_cheap), 1 => valid_world(cfg_mixed)],
             1u8..8,
